@@ -224,6 +224,24 @@ def targeted(fx):
             s2[i].append('')
             fix_counts(s2)
             out.append(('%s/missing+bad' % key, join_doc(s2, delims)))
+    # reader-level segment errors (leading blank, trailing separator) on the segments x12n_document handles in branches of
+    # their own: the first segment after ST (BHT / BGN / BPR) and the segment right before SE
+    for key in ('simple_837p', '834_lui_id_5010', '835id', 'repeat_init_segment'):
+        if key not in d:
+            continue
+        delims, segs = split_doc(d[key])
+        sts = [i for i, s in enumerate(segs) if s[0] == 'ST']
+        ses = [i for i, s in enumerate(segs) if s[0] == 'SE']
+        if not sts or not ses:
+            continue
+        for name, i in (('first', sts[0] + 1), ('last', ses[0] - 1)):
+            for how in ('lead', 'trail'):
+                s2 = [list(x) for x in segs]
+                if how == 'lead':
+                    s2[i][0] = ' ' + s2[i][0]
+                else:
+                    s2[i].append('')
+                out.append(('%s/%s-body-segment/%s' % (key, name, how), join_doc(s2, delims)))
     return out
 
 
